@@ -11,6 +11,7 @@ import (
 	"path/filepath"
 	"strings"
 	"sync"
+	"sync/atomic"
 	"time"
 
 	mail "github.com/wneessen/go-mail"
@@ -43,6 +44,8 @@ var c13Scenarios = []c13Scn{
 	{"Send+DialAndSend", 1, 1, 1},
 	{"2xSend+DialAndSend", 2, 1, 1},
 }
+
+var c13Blocked int32
 
 type c13World struct {
 	rig     *hx.Rig
@@ -248,7 +251,7 @@ func init() {
 					iters = "400"
 				}
 				start := time.Now()
-				limit := 240 * time.Second
+				limit := 120 * time.Second
 				if r.Thorough {
 					limit = 20 * time.Minute
 				}
@@ -302,7 +305,17 @@ func init() {
 					b = bound - 1 // three threads: one preemption less (quick 1, thorough 2)
 				}
 				vf.ExploreShard(r, b, "C13 "+scn.Name, si, sn, func(c *vf.Chooser) {
+					if atomic.LoadInt32(&c13Blocked) != 0 {
+						c.Silent = true
+						return // a thread is stuck in uncontrolled blocking: every further schedule would wait for the watchdog again
+					}
 					fs, steps, trace := c13Exec(r, scn, c)
+					for _, f := range fs {
+						if f.key == "uncontrolled-block" {
+							atomic.StoreInt32(&c13Blocked, 1)
+							r.Incomplete("exploration stopped after a thread blocked outside the scheduler's control (reported as violation)")
+						}
+					}
 					if c.Silent {
 						return
 					}
